@@ -4,13 +4,19 @@ primitive operations (recording wrappers put into the parser module's own namesp
 the values of _SAFE_CASTS, max / min / abs), wall time.  JSON stdin -> JSON stdout.
 
 cases
-  ["script", text]                 -> {"exc", "msg", "audit": [...], "wall"}
+  ["script", text]                 -> {"exc", "msg", "audit": [...], "env": [environment variables read], "wall"}
   ["expr", src, env]               -> {"res", "prims": [...], "builtins": [...], "audit": [...]}
   ["ref", text]                    -> {"cpp_sha"}        (state-leak probe: same text before / after the stream)
   ["blowup", n]                    -> {"bits", "exc"}     bit length of _eval_const("2**2**n"), or the exception it raises
   ["session", [text, ...], want_cpp] -> [{"sha", "exc", "changed": [module-level objects whose content changed], "cpp"?}, ...]
                                       the texts transpiled one after the other in THIS process
   ["rematch", file, name, pattern, flags, [text, ...]] -> [bool, ...]   real re: does the pattern match the whole text
+  ["target", text, pio, scratch]   -> {"alone", "exc", "msg", "returned", "proc": [process / network audit events], "pio_ran", "wall"}
+                                      the user-facing entry point: the text is written to <scratch>/script.py, made the __main__
+                                      file, and Reduino.target("COM3", upload=False) is called with PATH = one directory that is
+                                      empty (pio "absent") or holds an executable `pio` that appends a line to a marker file and
+                                      exits 0 (pio "fake"); temporary directories are created inside <scratch>.  "alone" = outcome
+                                      kind of parse()+emit() on the same text
   ["variants", text]               -> {"exc", "wall", "parses": [[name, null | [type label, ...]], ...] (first 4000), "n_parses",
                                       "n_blocks"}   the _parse_function / _parse_simple_lines invocations of one parse()+emit()
 """
@@ -53,6 +59,33 @@ def _hook(event, args):
 
 
 sys.addaudithook(_hook)
+
+# reads of the process environment have no audit event: os.environ's item access is wrapped (os.getenv, .get and `in` all end
+# there); iteration / copying counts as reading everything.  REDUINO_VERIF is the verification hook's own switch.
+import os as _os   # noqa: E402
+_env = {"keys": []}
+_ENV_OK = ("REDUINO_VERIF",)
+
+
+def _wrap_environ():
+    cls = type(_os.environ)
+    real_get, real_iter = cls.__getitem__, cls.__iter__
+
+    def getitem(self, key):
+        if _rec["on"] and key not in _ENV_OK:
+            _env["keys"].append(key if isinstance(key, str) else repr(key))
+        return real_get(self, key)
+
+    def iterate(self):
+        if _rec["on"]:
+            _env["keys"].append("<all>")
+        return real_iter(self)
+
+    cls.__getitem__ = getitem
+    cls.__iter__ = iterate
+
+
+_wrap_environ()
 
 
 class _Timeout(BaseException):
@@ -109,6 +142,7 @@ def dec(w):
 
 def do_script(text, limit):
     _rec["events"] = []
+    _env["keys"] = []
     exc = msg = None
     t0 = time.time()
     signal.alarm(limit)
@@ -130,7 +164,7 @@ def do_script(text, limit):
         signal.alarm(0)
     if hasattr(P, "_VERIF_IGNORED"):
         del P._VERIF_IGNORED[:]
-    return {"exc": exc, "msg": msg, "audit": _rec["events"][:10], "wall": round(time.time() - t0, 3)}
+    return {"exc": exc, "msg": msg, "audit": _rec["events"][:10], "env": sorted(set(_env["keys"]))[:10], "wall": round(time.time() - t0, 3)}
 
 
 class _OpProxy:
@@ -271,6 +305,89 @@ def do_session(texts, want_cpp, limit):
     return out
 
 
+PROC_EVENTS = ("subprocess.Popen", "os.system", "os.exec", "os.posix_spawn", "os.spawn", "os.fork", "os.forkpty", "os.startfile",
+               "pty.spawn", "os.kill", "os.killpg", "ctypes.dlopen", "webbrowser.open", "cpython.run_command")
+NET_PREFIX = ("socket.", "urllib.", "http.", "ftplib.", "smtplib.", "poplib.", "imaplib.", "nntplib.", "telnetlib.")
+
+
+def _kind(e):
+    return "SyntaxError" if isinstance(e, SyntaxError) else "ValueError" if isinstance(e, ValueError) else type(e).__name__
+
+
+def do_target(text, pio, scratch, limit):
+    import os
+    import shutil
+    import tempfile
+    import Reduino
+    os.makedirs(scratch, exist_ok=True)
+    work = tempfile.mkdtemp(prefix="t-", dir=scratch)
+    bindir, tmpdir = os.path.join(work, "bin"), os.path.join(work, "tmp")
+    os.makedirs(bindir)
+    os.makedirs(tmpdir)
+    marker = os.path.join(work, "pio-ran")
+    if pio == "fake":
+        with open(os.path.join(bindir, "pio"), "w") as f:
+            f.write("#!/bin/sh\necho \"$@\" >> '%s'\nexit 0\n" % marker)
+        os.chmod(os.path.join(bindir, "pio"), 0o755)
+    script = os.path.join(work, "script.py")
+    with open(script, "w", encoding="utf-8", errors="surrogatepass") as f:
+        f.write(text)
+    try:
+        emit(parse(text))
+        alone = None
+    except BaseException as e:  # noqa
+        alone = _kind(e)
+    main = sys.modules["__main__"]
+    saved = {"file": getattr(main, "__file__", None), "path": os.environ.get("PATH"), "tmp": os.environ.get("TMPDIR"), "tempdir": tempfile.tempdir}
+    out_fd = os.dup(1)
+    exc = msg = None
+    returned = None
+    _rec["events"] = []
+    _env["keys"] = []
+    t0 = time.time()
+    try:
+        main.__file__ = script
+        os.environ["PATH"] = bindir
+        os.environ["TMPDIR"] = tmpdir
+        tempfile.tempdir = tmpdir
+        sys.stdout.flush()
+        os.dup2(2, 1)            # whatever a started process prints must not end up in the JSON answer
+        signal.alarm(limit)
+        _rec["on"] = True
+        try:
+            r = Reduino.target("COM3", upload=False)
+            returned = "str" if isinstance(r, str) else type(r).__name__
+        except _Timeout:
+            exc, msg = "Timeout", f"> {limit}s"
+        except BaseException as e:  # noqa
+            exc, msg = _kind(e), type(e).__name__ + ": " + str(e)[:200]
+        finally:
+            _rec["on"] = False
+            signal.alarm(0)
+    finally:
+        sys.stdout.flush()
+        os.dup2(out_fd, 1)
+        os.close(out_fd)
+        main.__file__ = saved["file"]
+        os.environ["PATH"] = saved["path"] or ""
+        if saved["tmp"] is None:
+            os.environ.pop("TMPDIR", None)
+        else:
+            os.environ["TMPDIR"] = saved["tmp"]
+        tempfile.tempdir = saved["tempdir"]
+    wall = round(time.time() - t0, 3)
+    proc = [ev for ev in _rec["events"] if ev[0] in PROC_EVENTS or ev[0].startswith(NET_PREFIX)]
+    pio_ran = None
+    if os.path.exists(marker):
+        with open(marker) as f:
+            pio_ran = f.read()[:200]
+    shutil.rmtree(work, ignore_errors=True)
+    if hasattr(P, "_VERIF_IGNORED"):
+        del P._VERIF_IGNORED[:]
+    env = sorted(set(k for k in _env["keys"] if k not in ("TMPDIR", "TEMP", "TMP")))     # (tempfile's own look-ups)
+    return {"alone": alone, "exc": exc, "msg": msg, "returned": returned, "proc": proc[:10], "pio_ran": pio_ran, "env": env[:10], "wall": wall}
+
+
 def do_variants(text, limit):
     """one parse()+emit() with counting wrappers around _parse_function (every body parse: name, forced signature) and
     _parse_simple_lines (every block parse) - the work units of the def / call machinery"""
@@ -350,6 +467,8 @@ def main():
             out.append(do_variants(c[1], limit))
             if out[-1]["exc"] == "Timeout":
                 n_timeouts += 1
+        elif c[0] == "target":
+            out.append(do_target(c[1], c[2], c[3], limit))
         elif c[0] == "rematch":
             out.append(do_rematch(c[1], c[2], c[3], c[4], c[5]))
         elif c[0] == "tables":
